@@ -147,3 +147,14 @@ claim("C18", "TLC trace validation with an exact optimality certificate and a ra
       "planar, collinear; rotated, mirrored, noisy; 3..50 points; TLC-emitted degenerate covariances); TLC checks Orthogonal, Det1, Superposes, both certificate clauses, "
       "NoBetterInNet (|q|^2 <= 30, ~2200 rotations), Reorient and Rmsd on outputs quantised to 2^-20.",
       "Optimality over SO(3) is decided by the exact certificate on the quantised output plus the finite net, with slack tau = 2^-13 (|A|^2+|B|^2)/2; the SVD itself is not modelled.")
+
+claim("C06", "TLC trace validation of real meshes (static clauses + cell-by-cell sweep replay) + model checking of the sweep invariant",
+      "IsoMesh.tla defines, on integer fields with half-integer levels, exact edge crossings, the vertex-on-level rule (grid-edge crossing or Lewiner interior vertex "
+      "inside a straddling cell), one vertex per straddling edge, closed manifold (valid faces, each directed edge once, its twin once), orientation by exact signed "
+      "volume (BigInt), reversal under the other gradient direction, sphere volume bounds with 333/106 < pi < 355/113, exact integer ray casting for enclosure, and the "
+      "sweep action ProcessCell with its inductive invariant. MC_IsoMesh model-checks a reference mesher over all binary 2x2x2-cell fields (both paddings, values 0..2 in "
+      "thorough) cell by cell. Real chmpy.mc.marching_cubes output for all 255 corner patterns x 3 levels (all 189,790 single-cube fields in thorough), random multi-blob grids "
+      "with anisotropic spacing and both directions, integer spheres, and the six surface entry points (surface.py functions, Molecule/Crystal wrappers at separations "
+      "1.0/0.5/0.3/0.2) is validated by TLC, including a replay of the sweep on the real mesh partitioned by cell, enclosure of own atoms / exclusion of neighbours, and the "
+      "level-residual trend across separations.",
+      "Compiled Lewiner kernel used as found; vertices shipped at 1/3072 with slack 8 units; open known finding C06-lewiner-membrane (twinned faces on ambiguous cell faces) is tagged by a TLC predicate and reported as KNOWN-FINDING.")
